@@ -7,6 +7,7 @@ import (
 	"math/rand"
 	"sort"
 	"strings"
+	"unicode/utf8"
 
 	"verifharness/internal/fw"
 	"verifharness/internal/lib"
@@ -74,7 +75,7 @@ func c10Verdict(ms []jmem) (mime, ext string, top, inner int) {
 
 type c10Layout struct {
 	afterOpen, beforeColon, afterColon, afterVal, afterComma string
-	lead, trail                                             string // white space around the whole object
+	lead, trail                                              string // white space around the whole object
 }
 
 var c10Layouts = []c10Layout{
@@ -163,6 +164,27 @@ var queryKeys = []string{"type", "log", "asset", "version", "creator", "entries"
 
 // c10Sibling returns a random non-deciding member (it never completes a
 // verdict on its own at the top level) and a shape tag.
+// c10DictString returns a printable literal of the tree's source as a JSON string token ("" if none).
+func c10DictString(r *rand.Rand) string {
+	d := lib.SourceDictionary()
+	for try := 0; try < 8 && len(d) > 0; try++ {
+		lit := d[r.Intn(len(d))]
+		if len(lit) < 2 || len(lit) > 60 || !utf8.Valid(lit) {
+			continue
+		}
+		ok := true
+		for _, ch := range lit {
+			if ch < 0x20 || ch == '"' || ch == '\\' || ch == 0x7f {
+				ok = false
+			}
+		}
+		if ok && !bytes.Contains(lit, []byte("<svg")) {
+			return `"` + string(lit) + `"`
+		}
+	}
+	return ""
+}
+
 // c10Deep nests `inner` d levels deep in arrays and objects (a sibling whose depth
 // exceeds any fixed-size path stack must not change what the members after it mean).
 func c10Deep(r *rand.Rand, d int, inner jval) jval {
@@ -192,7 +214,15 @@ func c10Sibling(r *rand.Rand, depth int) (jmem, string) {
 	keys := []string{"a", "b", "name", "id", "Type", "types", "typ", "logs", "Log", "assets", "Asset", "versions", "x y", "accessors", "features", "geometry", "properties", "scenes", "bbox", "coordinates"}
 	key := keys[r.Intn(len(keys))]
 	scalars := []string{`1`, `-2.5e3`, `true`, `false`, `null`, `"x"`, `""`, `"Feature "`, `" Point"`, `"feature"`, `"3.0"`, `"2.0 "`, `"1.0"`, `"a,b"`, `"}"`, `"]"`, `"[{"`, `"\\"`, `"\""`, `"é"`, `"é"`}
-	var scalar = func() jval { return raw(scalars[r.Intn(len(scalars))]) }
+	var scalar = func() jval {
+		if r.Intn(10) == 0 {
+			// a literal of the tree's source as a string value (what other members contain must not matter)
+			if lit := c10DictString(r); lit != "" {
+				return raw(lit)
+			}
+		}
+		return raw(scalars[r.Intn(len(scalars))])
+	}
 	var nested func(d int) jval
 	nested = func(d int) jval {
 		switch k := r.Intn(7); {
